@@ -1,4 +1,8 @@
 import DdsModel.Mach
 import DdsModel.Layout
+import DdsModel.Iter
+import DdsModel.Decoder
 import DdsModel.Proofs.Layout
+import DdsModel.Proofs.Iter
 import DdsModel.Theorems.C02
+import DdsModel.Theorems.C08
